@@ -3013,6 +3013,22 @@ coap_handle_request_put_block(coap_context_t *context,
      */
     block.num <<= block.szx - lg_srcv->szx;
     block.szx = lg_srcv->szx;
+  } else if (block_option == COAP_OPTION_BLOCK1 && !block.bert &&
+             block.szx < lg_srcv->szx) {
+    /*
+     * The client has gone on to a smaller block size (RFC7959 2.3 allows
+     * that at any time): the blocks received so far are re-expressed in
+     * units of it and the body is tracked in that size from now on.
+     */
+    uint32_t shift = lg_srcv->szx - block.szx;
+    uint32_t i;
+
+    for (i = 0; i < lg_srcv->rec_blocks.used; i++) {
+      lg_srcv->rec_blocks.range[i].begin <<= shift;
+      lg_srcv->rec_blocks.range[i].end =
+          ((lg_srcv->rec_blocks.range[i].end + 1) << shift) - 1;
+    }
+    lg_srcv->szx = block.szx;
   }
   chunk = (size_t)1 << (block.szx + 4);
   update_data = 0;
